@@ -218,10 +218,25 @@ structure Retyped where
   pairCoeffs : List String
 deriving DecidableEq, Repr
 
-/-- the unique types, sorted by string and then (stably) by periodic-table position of their element -/
+/-- insert `x` in front of the first element it is `le` to (so `x` stays before elements of equal key) -/
+def insertBy {α} (le : α → α → Bool) (x : α) : List α → List α
+  | [] => [x]
+  | y :: ys => if le x y then x :: y :: ys else y :: insertBy le x ys
+
+/-- stable insertion sort (structural; python's `list.sort` / `sorted` is a stable sort as well, and the result of a
+    stable sort by a total preorder is unique): elements are inserted from the right, each in front of its equals -/
+def sortBy {α} (le : α → α → Bool) : List α → List α
+  | [] => []
+  | x :: xs => insertBy le x (sortBy le xs)
+
+/-- second sort key of retype: `list(ATOMIC_MASSES.keys()).index(s[0:2].replace('_', ''))` -/
+def ptableKeyOf (tbl : List (String × Dec)) (s : String) : Nat := (ptableIndex tbl (elementOf s)).getD 0
+
+/-- the unique types, sorted by string and then (stably) by periodic-table position of their element:
+    `unique_types = list(set(new_types)); unique_types.sort(); unique_types.sort(key=ptable_order)` -/
 def sortedTypes (tbl : List (String × Dec)) (newTypes : List String) : List String :=
-  let byString := (dedup newTypes).mergeSort (fun a b => decide (a ≤ b))
-  byString.mergeSort (fun a b => decide ((ptableIndex tbl (elementOf a)).getD 0 ≤ (ptableIndex tbl (elementOf b)).getD 0))
+  let byString := sortBy (fun a b => decide (a ≤ b)) (dedup newTypes)
+  sortBy (fun a b => decide (ptableKeyOf tbl a ≤ ptableKeyOf tbl b)) byString
 
 /-- `retype_atoms_from_uff_types(atoms, new_types)` followed by `assign_pair_coeffs(atoms)`;
     a type whose element is not in the mass table raises (`ValueError` from `list.index`) -/
